@@ -87,10 +87,8 @@ pub fn jaxable(f: &mut FactSet) {
     }
     for k in 0..3 {
         for r in &mut f.recs[k] {
+            // empty gene symbols / disease names are legal in the text formats (kept as they are)
             r.name = clean(&r.name);
-            if r.name.is_empty() {
-                r.name = format!("unnamed {}", r.id);
-            }
         }
     }
     // the obo header carries the version as YYYY-MM-DD
